@@ -24,6 +24,9 @@ def reasm(prop,extra_quick=(),extra_thorough=()):
     jobs.append(job("api-k3-nilpush",".","VH_Reassembler",[prop+"/"],{"k":3,"maxInFlight":1,"nilpush":1},Q,bounds="k=3 incl. PushMessage(nil); maxInFlight=1"))
     jobs.append(job("api-k3-mif5",".","VH_Reassembler",[prop+"/"],{"k":3,"maxInFlight":5},Q,bounds="k=3 operations then Close; maxInFlight=5 (nothing leaves by overflow: three events can sit in the buffer at Close)"))
     jobs.append(job("api-k4-mif5",".","VH_Reassembler",[prop+"/"],{"k":4,"maxInFlight":5},T,bounds="k=4 operations then Close; maxInFlight=5"))
+    jobs.append(job("alphabet-k5-mif5",".","VH_Reassembler",[prop+"/"],{"k":5,"maxInFlight":5,"alphabet":2},Q,bounds="k=5 operations over a small alphabet (sequence = symbolic base + {0,1}; SYSCALL | PROCTITLE | EOE; Maintain) then Close; maxInFlight=5"))
+    jobs.append(job("alphabet-k4-mif2",".","VH_Reassembler",[prop+"/"],{"k":4,"maxInFlight":2,"alphabet":3},Q,bounds="k=4 operations over sequence = base + {0,1,2} x 3 record kinds; maxInFlight=2"))
+    jobs.append(job("alphabet-k6-mif2",".","VH_Reassembler",[prop+"/"],{"k":6,"maxInFlight":2,"alphabet":2},T,bounds="k=6 over base + {0,1} x 3 record kinds; maxInFlight=2"))
     return {"jobs":jobs,"assumptions":REASM_ASSUME,"outside":REASM_OUT}
 C["C01"]=reasm("C01")
 C["C01"]["jobs"].append(job("push-text-k3",".","VH_ReassemblerPush",["C01/"],{"k":3,"maxInFlight":2},Q,expect=["C01/push-accepted"],bounds="k=3 records through Push(typ, raw): record type symbolic (all 65536), well-formed text, sequence in {5,6}, then Close; maxInFlight=2"))
@@ -135,7 +138,7 @@ for i,t in enumerate(TYPES):
     big = t in ("SYSCALL","EXECVE","USER_START","LOGIN")
     c05.append(job(f"body-{t}","auparse","VH_BodyTotal",["C05/"],{"maxlen":6 if big else 5,"type":i},QO,bounds=f"Parse({t}, header + body) for every ASCII body of 0..{6 if big else 5} symbolic bytes, then Data/Tags/ToMapStr twice"))
     c05.append(job(f"body7-{t}","auparse","VH_BodyTotal",["C05/"],{"maxlen":7 if t!="AVC" else 5,"type":i},T,bounds=f"Parse({t}, header + body), body 0..7 symbolic ASCII bytes (AVC: 0..5, its pattern has 14 byte classes)"))
-for tn,tname,ml in [(1,"typename",4),(2,"separator",5),(3,"unknown-number",5)]:
+for tn,tname,ml in [(1,"typename",4),(2,"separator",5),(3,"unknown-number",5),(4,"type-and-separator",5)]:
     c05.append(job(f"line-{tname}","auparse","VH_LineTotal",["C05/"],{"maxlen":ml,"template":tn},Q,bounds=f"ParseLogLine on a full line whose {tname} part is every ASCII string of 0..{ml} symbolic bytes (type=<..> msg=audit(1.000:1): a=b)"))
 c05.append(job("header-window-3","auparse","VH_HeaderBad",["C05/"],{"mode":5,"window":3},Q,bounds="Parse/ParseLogLine on \"audit\" + 0..3 symbolic ASCII bytes + header remainder (delimiters swapped, doubled, missing)"))
 c05.append(job("header-overwrite-2","auparse","VH_HeaderBad",["C05/"],{"mode":6},Q,bounds="a well-formed line with any two header positions overwritten by symbolic ASCII bytes"))
@@ -146,8 +149,11 @@ KT={"saddr":2,"argc":7,"a0":7,"a1":7,"sig":1,"obj":8,"name":8,"res":9,"acct":9,"
 KW={"syscall":1,"a0":2,"a1":2,"argc":3}
 for i,k in enumerate(KEYS):
     ml = 3 if k=="syscall" else 4
-    c05.append(job(f"field-{k}","auparse","VH_FieldTotal",["C05/"],{"key":i,"maxlen":ml,"type":KT.get(k,0),"with":KW.get(k,0)},QO,
-        bounds=f"{TYPES[KT.get(k,0)]} record with {k}=<v>, v of 0..{ml} symbolic ASCII bytes, unquoted / double- / single-quoted"+(" plus the companion field" if k in KW else "")))
+    kw5 = dict(loop_cap=3000) if k in ("argc","a0","a1") else {}
+    p5 = {"key":i,"maxlen":ml,"type":KT.get(k,0),"with":KW.get(k,0)}
+    if kw5: p5["budget_is_violation"]=1
+    c05.append(job(f"field-{k}","auparse","VH_FieldTotal",["C05/"],p5,QO,**kw5,
+        bounds=("(a loop that runs more than 3000 times on these inputs counts as not terminating: C05/unbounded-work) " if kw5 else "")+f"{TYPES[KT.get(k,0)]} record with {k}=<v>, v of 0..{ml} symbolic ASCII bytes, unquoted / double- / single-quoted"+(" plus the companion field" if k in KW else "")))
     c05.append(job(f"field5-{k}","auparse","VH_FieldTotal",["C05/"],{"key":i,"maxlen":5 if k!="syscall" else 4,"type":KT.get(k,0),"with":KW.get(k,0)},T,bounds=f"{k}=<v>, v of 0..5 symbolic ASCII bytes (syscall: 0..4)"))
 for na,nn in [(1,"e-acute"),(2,"ff"),(3,"80fe"),(4,"euro")]:
     for k in ("key","cwd","exe","name","a0","proctitle","saddr"):
@@ -216,6 +222,7 @@ c12.append(job("plain-len5","auparse","VH_PlainField",["C12/"],{"len":5},T,bound
 for w,name in enumerate(["result-words","result-arbitrary","unset-ids","exit-errno","arch-syscall"]):
     c12.append(job("derived-"+name,"auparse","VH_Derived",["C12/"],{"what":w,"len":3},Q if name!="arch-syscall" else T,
        bounds={"result-words":"success=yes|no, res=1|0|success|failed","result-arbitrary":"res=<3 symbolic bytes>: result is success or fail","unset-ids":"auid/ses/old-auid = -1, 4294967295 or a symbolic uint32 written in decimal","exit-errno":"exit=-N for every errno in the table, symbolic non-negative codes, an unknown negative code","arch-syscall":"every architecture x every syscall number of its table, plus an unknown number"}[name]))
+c12.append(job("derived-arch-syscall-sampled","auparse","VH_Derived",["C12/"],{"what":4,"len":3,"sample":1},Q,bounds="every architecture of the table x its lowest, middle and highest syscall number, plus an unknown number"))
 c12.append(job("derived-arch-syscall-x86","auparse","VH_Derived",["C12/"],{"what":4,"len":3,"onlyx86":1},QO,bounds="x86_64: every syscall number of its table, plus an unknown number"))
 C["C12"]={"jobs":c12,"assumptions":PARSE_ASSUME+["the kernel's encoding rule (audit_log_untrustedstring) is re-implemented in the harness: double quotes iff all bytes in 0x21..0x7e and not '\"', else upper-case hex",
    "values obey the property's exclusions (no leading/trailing quote character, no trailing backslash) and are not one of the placeholders","name tables themselves are the oracle for the name cases (C20 checks the tables)"],
